@@ -120,11 +120,29 @@ def init_param_to_field(repo: Repo, ci: ClassInfo) -> Dict[str, Set[str]]:
     # local -> params it depends on (iterate twice for chains)
     selfname_ = fn.args.args[0].arg if fn.args.args else 'self'
     dep: Dict[str, Set[str]] = {p: {p} for p in params}
+    # default fills:  `if p is None: p = <derived from other params>`  do not make p's field depend on those params
+    default_fill = set()
+    for n in walk_local(fn, include_nested_funcs=False):
+        if isinstance(n, ast.If):
+            t = n.test
+            names = set()
+            for c in ast.walk(t):
+                if isinstance(c, ast.Compare) and isinstance(c.left, ast.Name) and len(c.ops) == 1 and isinstance(c.ops[0], ast.Is) \
+                        and isinstance(c.comparators[0], ast.Constant) and c.comparators[0].value is None:
+                    names.add(c.left.id)
+                if isinstance(c, ast.UnaryOp) and isinstance(c.op, ast.Not) and isinstance(c.operand, ast.Name):
+                    names.add(c.operand.id)
+            for st in n.body:
+                if isinstance(st, ast.Assign) and len(st.targets) == 1 and isinstance(st.targets[0], ast.Name) and st.targets[0].id in names \
+                        and st.targets[0].id in params:
+                    default_fill.add(id(st))
     for _ in range(3):
         for n in walk_local(fn, include_nested_funcs=False):
             tgt = None
             val = None
             if isinstance(n, ast.Assign):
+                if id(n) in default_fill:
+                    continue
                 val = n.value
                 tgts = n.targets
             elif isinstance(n, ast.AnnAssign) and n.value is not None:
